@@ -153,6 +153,13 @@ func TestProp_Tokens(t *testing.T) {
 				}
 				info := a.Info()
 				info.Nonce = x.nonce
+				// the bundle's own id field is the requester's to fill; it has no bearing
+				switch rapid.IntRange(0, 4).Draw(t, "bundleIdField") {
+				case 0:
+					info.Id = "no-such-record"
+				case 1:
+					info.Id = a.KeyID
+				}
 				req := vkit.Sign(info, a.CertPriv)
 				before := nodeSnap()
 				// now and then the storage fails to remove the token record during this use
